@@ -62,6 +62,7 @@ type c15World struct {
 	log          []string
 	badKeyNext   bool // the next refresh carries an entry with an unconvertible consensus key
 	discardNext  bool // the next refresh runs on a branch that is thrown away
+	repowered    int  // number of power changes of known validators offered so far
 	discarded    int
 }
 
@@ -176,6 +177,12 @@ func (w *c15World) refresh(rt *rapid.T, forceValid ...bool) error {
 		pk, err := cryptocodec.ToCmtProtoPublicKey(v.priv.PubKey())
 		if err != nil {
 			panic(err)
+		}
+		if v.power < 1<<40 && rapid.IntRange(0, 3).Draw(rt, "repower") == 0 {
+			// the validator's voting power on L1 has changed since the last snapshot
+			v.power = int64(rapid.IntRange(1, 1000).Draw(rt, "newPower"))
+			w.vals[i].power = v.power
+			w.repowered++
 		}
 		set.Validators = append(set.Validators, &cmtproto.Validator{Address: v.addr, PubKey: pk, VotingPower: v.power})
 		offered[string(v.addr)] = v
